@@ -6,7 +6,7 @@
    soundness theorems over the plain tree [mroot] are not yet proved (stated below as the
    checked, bounded obligations they currently are). *)
 From Coq Require Import List NArith.
-From Sia Require Import Prim.Tok Merkle.Tree Merkle.Forest Merkle.Rhp Merkle.RhpProofs Merkle.RhpRoot Merkle.RgComplete.
+From Sia Require Import Prim.Tok Merkle.Tree Merkle.Forest Merkle.Rhp Merkle.RhpProofs Merkle.RhpRoot Merkle.RgComplete Merkle.RgSound Merkle.RgSound2.
 Import ListNotations.
 
 Theorem C16_accumulator_is_forest : forall H L ds xs, Repr hash (node H) L ds ->
@@ -28,7 +28,7 @@ Print Assumptions C16_tree_proof_complete.
 Theorem C16_tree_proof_sound : forall (node : hash -> hash -> hash) t p x ps,
   perfect hash t -> length p = height hash t -> length ps = height hash t ->
   proofRoot hash node x (rev p) (rev ps) = root hash node t ->
-  (get hash t p = Some x /\ ps = sibs hash node t p) \/ NodeCollision hash node.
+  (get hash t p = Some x /\ ps = sibs hash node t p) \/ Tree.NodeCollision hash node.
 Proof. exact (proof_sound hash (list_eq_dec N.eq_dec)). Qed.
 Print Assumptions C16_tree_proof_sound.
 
@@ -76,3 +76,22 @@ Theorem C16_range_proof_complete : forall H (ls : list hash) start end_,
   verify_range_proof H (build_range_proof H ls start end_) (slice ls start (end_ - start)) start end_ n (mroot H ls) = true.
 Proof. exact range_proof_complete. Qed.
 Print Assumptions C16_range_proof_complete.
+
+(* ---- sector-range proofs: soundness ---- *)
+(* whatever VerifySectorRangeProof accepts against the plain root of a list of at most 2^30 sector roots, for a non-empty
+   range [start, end) within the list and as many covered roots as the range has, is the list's own roots for that range
+   together with exactly the proof BuildSectorRangeProof produces -- or two different pairs of hashes with the same node
+   hash are in hand. (For fixed n, start, end the verifier evaluates one fixed tree expression over proof hashes and roots;
+   the argument runs the verifier once over pairs (submitted hash, honest hash) and tracks equality through every node.) *)
+Theorem C16_range_proof_sound : forall H (ls : list hash) start end_ proof roots,
+  (0 < N.of_nat (length ls) <= 2 ^ 30)%N -> (start < end_)%N -> (end_ <= N.of_nat (length ls))%N ->
+  N.of_nat (length roots) = (end_ - start)%N ->
+  verify_range_proof H proof roots start end_ (N.of_nat (length ls)) (mroot H ls) = true ->
+  (roots = slice ls start (end_ - start) /\ proof = build_range_proof H ls start end_) \/ RgSound.NodeCollision H.
+Proof. exact range_proof_sound. Qed.
+Print Assumptions C16_range_proof_sound.
+
+(* the collision disjunct is the same statement as in the perfect-tree theorems above *)
+Theorem C16_range_collision_is_node_collision : forall H, RgSound.NodeCollision H <-> Tree.NodeCollision hash (node H).
+Proof. exact range_collision_same. Qed.
+Print Assumptions C16_range_collision_is_node_collision.
